@@ -280,6 +280,34 @@ theorem ts_roundtrip_exact (t : Nat) (ht : t ≤ MAX_NS) :
     have := (ts_roundtrip t k ht hk).2
     rwa [hz, Nat.sub_zero] at this
 
+/-- The parser is total: it never panics, on any byte string whatsoever (any length, multi-byte characters,
+    signs, separators) — and neither does the `Display`-buffering entry point, which is the same function. -/
+theorem ts_parse_total (s : List UInt8) :
+    parseRfc3339 s ≠ .panic ∧ parseDisplay s = parseRfc3339 s :=
+  ⟨parse_total_lemma s, parseDisplay_eq s⟩
+
+/-- Strictness, as an exact characterisation of the accepted language: a text parses to `t` iff it is
+    `YYYY-MM-DDThh:mm:ss[.F]Z` — four/two-digit zero-padded decimal fields, the separators `-`, `-`, `T`, `:`, `:`,
+    an optional `.` followed by 1–9 digits `F`, the zone `Z` — with month and day at least 1, and `from_parts` of
+    the seven numbers is `t` (fields beyond their calendar range wrap as `from_parts` documents; the result
+    must lie in 1970..=9999). Every other text — wrong length, wrong or missing separator or zone, a sign, a
+    non-digit or multi-byte character where a digit belongs, an empty fraction — is an error. -/
+theorem ts_strict (s : List UInt8) (t : Nat) :
+    parseRfc3339 s = .ok t ↔
+      ∃ Y Mo D H Mi S F, Y < 10000 ∧ Mo < 100 ∧ D < 100 ∧ H < 100 ∧ Mi < 100 ∧ S < 100 ∧
+        F.length ≤ 9 ∧ F.all isDigit = true ∧ s = rfc3339Text Y Mo D H Mi S F ∧
+        1 ≤ Mo ∧ 1 ≤ D ∧ fromParts ⟨Y, Mo, D, H, Mi, S, fracNanos F⟩ = .ok (some t) :=
+  ts_strict_lemma s t
+
+/-- Conversely every calendar-valid text of the grammar is accepted: the text of the parts of any instant in
+    range, with any 0–9 sub-second digits, parses to that instant's second plus the fraction. -/
+theorem ts_accepts_calendar_valid (t : Nat) (ht : t ≤ MAX_NS) (F : List UInt8) (hF : F.length ≤ 9)
+    (hFd : F.all isDigit = true) :
+    let p := toParts t
+    parseRfc3339 (rfc3339Text p.years p.months p.days p.hours p.minutes p.seconds F) =
+      .ok (t / NANOS * NANOS + fracNanos F) := by
+  exact accepts_lemma t ht F hF hFd
+
 example : fmtRfc3339 (some 0) 0 = ascii "1970-01-01T00:00:00Z" := by decide +kernel
 example : parseRfc3339 (ascii "1970-01-01T00:00:00Z") = .ok 0 := by decide +kernel
 example : fmtRfc3339 none 1691961703000017532 = ascii "2023-08-13T21:21:43.000017532Z" := by decide +kernel
